@@ -110,7 +110,7 @@ func runFree(c Case) Out {
 		// the loop has taken the tick; once it takes this no-op the slot has been scanned
 		// and the goroutine running this tick's callbacks has been started
 		tw.RemoveTimer(sentinel)
-		if !hx.Quiesce(cbBusy, 5*time.Second) {
+		if !hx.Quiesce(cbBusy, 30*time.Second) {
 			out.Err = "callbacks did not quiesce"
 			return out
 		}
